@@ -223,6 +223,17 @@ def gen_T08():
     src_tls = ast.unparse(find_def(sk, 'starttls', 'SocketDriver'))
     need('if self.currentServer.force_tls_verification and (not self.anyCertValidationEnabled()):\n        verifyCertificates = True' in src_tls
          and 'verify=verifyCertificates' in src_tls and 'hostname=self.currentServer.hostname' in src_tls, 'SocketDriver.starttls changed')
+    # what is requested: REQUEST_CAPABILITIES (class attribute, never modified) plus 'sasl' per Irc object
+    src_rs = ast.unparse(find_def(t, 'resetSasl', 'Irc'))
+    need('REQUEST_CAPABILITIES' not in src_rs and src_rs.rstrip().endswith('self.sasl_wanted = bool(self.sasl_next_mechanisms)'),
+         'resetSasl: must record sasl_wanted per object and leave REQUEST_CAPABILITIES alone')
+    need([ast.unparse(x) for x in _body(find_def(t, '_wantedCapabilities', 'Irc'))] ==
+         ["if self.sasl_wanted:\n    return self.REQUEST_CAPABILITIES | set(['sasl'])\nelse:\n    return self.REQUEST_CAPABILITIES"], '_wantedCapabilities changed')
+    for fn in ('doCapLs', 'doCapNew'):
+        need('set(self.state.capabilities_ls) & self._wantedCapabilities() - self.state.capabilities_ack' in ast.unparse(find_def(t, fn, 'Irc')),
+             '%s: wanted set changed' % fn)
+    need(not any(isinstance(n, ast.Attribute) and n.attr == 'REQUEST_CAPABILITIES' and isinstance(getattr(n, 'ctx', None), ast.Store)
+                 for n in ast.walk(irc)), 'REQUEST_CAPABILITIES is assigned inside Irc')
     has_filter = any(isinstance(n, ast.FunctionDef) and n.name == 'filterSaslMechanisms' for n in irc.body)
     order = ['on_init_messages_sent', 'on_sasl_cap', 'on_sasl_auth_finished', 'on_cap_end', 'on_start_motd', 'on_end_motd', 'on_shutdown']
     out = '(* FSM states: ' + ', '.join('%s=%d' % kv for kv in sorted(states.items(), key=lambda kv: kv[1])) + ' *)\n'
